@@ -38,18 +38,47 @@ fn run_line(line: &str) -> String {
 
 fn main() {
     std::panic::set_hook(Box::new(|_| {}));
+    // per-case watchdog: a case that does not finish within the deadline is reported as HANG and the process exits
+    // (the orchestrator restarts the driver on the next case)
+    let deadline = std::env::var("IMPLDRV_CASE_SECS").ok().and_then(|v| v.parse::<u64>().ok()).unwrap_or(20);
     let stdin = std::io::stdin();
     let stdout = std::io::stdout();
     let mut out = std::io::BufWriter::new(stdout.lock());
+    let (tx_line, rx_line) = std::sync::mpsc::channel::<String>();
+    let (tx_res, rx_res) = std::sync::mpsc::channel::<String>();
+    std::thread::Builder::new()
+        .stack_size(64 * 1024 * 1024)
+        .spawn(move || {
+            for line in rx_line {
+                let res = std::panic::catch_unwind(|| run_line(&line));
+                let s = match res {
+                    Ok(s) => s,
+                    Err(_) => "PANIC".to_string(),
+                };
+                if tx_res.send(s).is_err() {
+                    break;
+                }
+            }
+        })
+        .unwrap();
     for line in stdin.lock().lines() {
         let line = match line {
             Ok(l) => l,
             Err(_) => break,
         };
-        let res = std::panic::catch_unwind(|| run_line(&line));
-        match res {
+        tx_line.send(line).unwrap();
+        match rx_res.recv_timeout(std::time::Duration::from_secs(deadline)) {
             Ok(s) => writeln!(out, "{}", s).unwrap(),
-            Err(_) => writeln!(out, "PANIC").unwrap(),
+            Err(std::sync::mpsc::RecvTimeoutError::Timeout) => {
+                writeln!(out, "HANG").unwrap();
+                out.flush().unwrap();
+                std::process::exit(3);
+            }
+            Err(_) => {
+                writeln!(out, "CRASH").unwrap();
+                out.flush().unwrap();
+                std::process::exit(4);
+            }
         }
         out.flush().unwrap();
     }
